@@ -9,6 +9,8 @@ EXPLORER_NOTE = ("Trusted base: the harness (shadow model, drop log, tracking al
                  "Bounded: <= N simultaneously allocated objects per scope (2-4), harness payload types, 1-2 root slots, 1-2 strong slots; "
                  "within a scope the search runs to a fixpoint (all depths) unless the evidence names a cap.")
 
+PROBE_NOTE = "Trusted base: rustc 1.95 decides acceptance of every generated program; the generator's own tables (which pointers were placed where / which step is the offending one); positive twins prove each rejection is caused by the step under test. Exhaustive over the stated grammar only - the universally quantified reading over all safe programs is NOT established."
+
 CHECKS = {
     "C01": dict(engine="explorer", cat="model_checking", ref="5/C01",
                 text="Every reachable state and transition of the bounded scopes (full 2-object alphabet, 3-object chains, trace-fault scope, dynamic-root scope with weak upgrades) is executed on the real Arena; after every operation the drop log and the allocator log are compared with shadow reachability and the real graph is traversed in lock-step with the shadow.",
@@ -52,6 +54,21 @@ CHECKS = {
     "C18": dict(engine="grid", cat="exploration", ref="5/C18", note="Trusted base: tracking allocator, destructor log; element constructors panic via resume_unwind.",
                 text="Every builder kind x abandonment point (fresh, after header, constructor panic at every index k <= n, completed) x element kind (token, no drop glue, zero-sized, over-aligned) x arena phase (Sleeping, Marking, Marked, Sweeping) x copy source length n-1/n/n+1: destructor log equals the initialised parts exactly once, block released, Gc count / debt bits / phase unchanged by abandonment, constructor called exactly once per index in order, later collections and arena drop stay clean.",
                 tech="exhaustive enumeration of builder abandonment points on the real code"),
+    "C12": dict(engine="probes", cat="exploration", ref="5/C12", note=PROBE_NOTE + " Five root-type shapes of the implied-'static family are listed as known findings (rustc #25860 family).",
+                text="Exhaustive enumeration of the brand-escape grammar (13 branded things x 9 escape routes x 8 API entry points, cross-arena uses under nested mutate / finalize, re-entrant collection calls, shrink/grow variance by value and behind references for 18 types, Send/Sync for 18 types incl. arenas with plain-data roots, root-type shapes implying 'gc: 'static): every negative program must be rejected by rustc, every positive twin accepted; accepted negatives are run to show the consequence.",
+                tech="exhaustive enumeration of a bounded program grammar, compiler verdict per program, execution of accepted programs"),
+    "C13": dict(engine="probes", cat="exploration", ref="5/C13", note=PROBE_NOTE,
+                text="Typed term grammar (Write sources x 28 holder fields x projection chains up to depth 4/5 x sinks), typed under an over-approximate model so that impls that do not exist today are probed too; every program rustc accepts is run with the holder black in a fully marked arena and a fresh white child, violation = child reachable through the holder but destructed; fixed probes for forged Write, unsafe accessors, Cell/RefCell under derive with every mode/bound/require_static combination, user Unlock/DerefWrite/IndexWrite impls and user index types; the sanctioned setters are run as controls.",
+                tech="exhaustive enumeration of a typed program grammar; compiler verdict; accepted programs executed under a reachable-but-destructed oracle"),
+    "C15": dict(engine="probes", cat="exploration", ref="5/C15", note=PROBE_NOTE,
+                text="1503 (thorough: more) derived type shapes in one generated program: every struct kind x field combination, one-/two-/three-variant enums incl. require_static fields at the position of a pointer in another variant, generics instantiated with tracing and non-tracing types, modes, bound overrides, gc_lifetime headers; for every shape x active variant the recording Trace multiset must equal the pointers in traced fields (directly and through the NEEDS_TRACE gate) and NEEDS_TRACE must equal the disjunction; ~90 rejection probes with twins for every misuse the statement lists, in several positions.",
+                tech="exhaustive enumeration of a type-shape grammar, generated crate executed against the generator's table; compiler verdict for misuse probes"),
+    "C16": dict(engine="probes", cat="exploration", ref="5/C16", note=PROBE_NOTE + " Two feature sets in quick (default, all optional crates).",
+                text="For every provided Collect impl x type-parameter position x element position (sizes 0..3, tuples of every arity x every position, wrapped VecDeque ring buffers, set/unset OnceLock, inline/spilled SmallVec, SlotMap after removal, optional crates) a Gc or GcWeak is placed in exactly that position and the recording Trace multiset compared through the NEEDS_TRACE gate; NEEDS_TRACE true whenever a parameter's is; an end-to-end survival program; 35 types that must not be Collect<'gc> (interior mutability, non-'static references, Static of branded types, foreign brands, hashers holding pointers, static_collect! on branded types) with twins.",
+                tech="exhaustive enumeration of impl x position grid in a generated program; compiler verdict for non-Collect probes"),
+    "C19": dict(engine="probes", cat="exploration", ref="5/C19", note=PROBE_NOTE + " Run-time half: tracking allocator and destructor log. ZstCache::alloc_zst is a known finding.",
+                text="Run-time half (grid): all chains up to length 2 (thorough 3) of identity-typed conversions on a sized value x 5 terminal conversions, chains up to 3 for slice / str / header+slice / unsized array / RefLock<dyn>, converted weak pointers, upgrade+convert+stash in every collector phase with the handle as the only root, ZstCache<1|8|64> x alignments x entry points: identity, dereference, survival through two cycles, single destruction. Rejection half (probes): every public unsafe fn / unsafe trait used without unsafe, builders' assume_init for uninhabited and private types, safe conjuring attempts.",
+                tech="exhaustive enumeration of conversion chains on the real code + enumeration of conjuring programs with compiler verdict"),
     "C20": dict(engine="explorer", cat="model_checking", ref="5/C20",
                 text="Product exploration of two real arenas with different pacing on one thread (allocation, links, weak pointers, handles, collector steps, dropping either arena): after every operation on one arena the other arena's canonical bookkeeping (incl. colours), drop log, Gc count, debt bits, phase and handles are bit-identical, its own oracles still hold, foreign handles are refused, and C02/C04 probes hold per arena in every product state.",
                 tech="explicit-state BFS over the product of two real arenas, non-interference oracle"),
@@ -95,6 +112,7 @@ def main():
         },
         "engines": [
             {"name": "explorer", "path": "/verif/harness", "serves_properties": sorted(k for k, v in CHECKS.items() if v["engine"] == "explorer"), "kind_free_text": "explicit-state breadth-first model checker over the real gc_arena::Arena (re-execution, canonical-state hashing, shadow-model oracles, per-state probes, fault transitions)"},
+            {"name": "probes", "path": "/verif/lib", "serves_properties": sorted(k for k, v in CHECKS.items() if v["engine"] == "probes"), "kind_free_text": "deterministic generators expand a typed probe grammar into one tiny Rust program per point; rustc's verdict on each (metadata-only compile, 16 in parallel); accepted programs are built and run under an oracle"},
             {"name": "grid", "path": "/verif/harness/src/bin/grid", "serves_properties": sorted(k for k, v in CHECKS.items() if v["engine"] == "grid"), "kind_free_text": "exhaustive enumeration of finite configuration / layout / abandonment grids on the real code against reference computations (tracking allocator, destructor log)"},
         ],
         "checks": checks,
